@@ -187,13 +187,23 @@ class Ctx:
             rc, out = sh(["timeout", str(timeout), "coqc", "-Q", COQ, "IQ", "-Q", d, "Cases", os.path.join(d, "cases_%d.v" % k)], timeout=timeout + 30)
             return k, rc, out
         mism, viol, bad = [], [], []
+        def take(k, rc, out):
+            m = re.search(r"=\s*Result\s*(\[[^\]]*\])\s*(\[[^\]]*\])", out, re.S)
+            if rc != 0 or not m: return False
+            for i in re.findall(r"\d+", m.group(1)): mism.append(shards[k][int(i)][1])
+            for i in re.findall(r"\d+", m.group(2)): viol.append(shards[k][int(i)][1])
+            return True
+        retry = []
         with ThreadPoolExecutor(NPROC) as ex:
             for k, rc, out in ex.map(run, range(len(shards))):
-                m = re.search(r"=\s*Result\s*(\[[^\]]*\])\s*(\[[^\]]*\])", out, re.S)
-                if rc != 0 or not m:
-                    bad.append((k, out[-800:])); continue
-                for i in re.findall(r"\d+", m.group(1)): mism.append(shards[k][int(i)][1])
-                for i in re.findall(r"\d+", m.group(2)): viol.append(shards[k][int(i)][1])
+                if not take(k, rc, out): retry.append((k, rc, out))
+        # a shard killed by the time limit on an overloaded machine (exit 124/137, no Coq error text) is evaluated once more, alone, with a longer limit
+        for k, rc, out in retry:
+            if rc in (124, 137, -9) and "Error" not in out:
+                rc2, out2 = sh(["timeout", str(4 * timeout), "coqc", "-Q", COQ, "IQ", "-Q", d, "Cases", os.path.join(d, "cases_%d.v" % k)], timeout=4 * timeout + 30)
+                if take(k, rc2, out2): continue
+                rc, out = rc2, out2
+            bad.append((k, "exit %s: %s" % (rc, out[-800:])))
         n = len(cases)
         self.cov["evaluations"] += n
         distinct = set(c for c, _ in cases) if nontrivial is None else set(c for c, o in cases if nontrivial(o))
@@ -212,11 +222,14 @@ class Ctx:
         for o in viol[:limit] if keyfn is None else viol:
             key = keyfn(o) if keyfn else None
             self.violation(key, (what or name) + ": implementation output fails the specification", {"correspondence": name, "case": o})
-        if mism and not viol:
-            self.broken("correspondence:%s" % name, "%d case(s) where the model and the implementation differ, e.g. %s" % (len(mism), json.dumps(mism[0], default=str)[:800]),
-                        extra={"mismatching_cases": mism[:limit]})
-        elif mism:
-            self.notes.append("%s: %d mismatching cases (of which %d violate the specification)" % (name, len(mism), len(viol)))
+        # model/implementation mismatches that are NOT specification violations always break the correspondence (they must not hide behind
+        # violations of other cases, e.g. listed known findings); mismatches on violating cases are covered by those violations
+        only = [m for m in mism if not any(m is v for v in viol)]
+        if only:
+            self.broken("correspondence:%s" % name, "%d case(s) where the model and the implementation differ without a specification violation, e.g. %s" % (len(only), json.dumps(only[0], default=str)[:800]),
+                        extra={"mismatching_cases": only[:limit]})
+        if mism and viol:
+            self.notes.append("%s: %d mismatching cases (of which %d violate the specification)" % (name, len(mism), len(mism) - len(only)))
 
     # ------------------------------------------------------------ results
     def violation(self, key, what, replay):
